@@ -35,8 +35,9 @@ Proof. exact resp_no_std_hop_names. Qed.
 Print Assumptions C04_response_no_standard_hop_by_hop_names.
 
 (* the revalidation path: after an origin 304 the stored header is HttpHeader::update(stored, 304 fields)
-   (model from property C14) and the same filter applies to it, so nothing hop-by-hop or Connection-named
-   (by the 304's own Connection field, which update() keeps) is relayed, for all stored and 304 header sets *)
+   (model from property C14, as repaired by /repo 5d5369d: the 304's hop-by-hop fields, its Connection field and
+   whatever that nominates are not merged) and the same filter applies to it, so nothing hop-by-hop or named by the
+   merged header's Connection field is relayed, for all stored and 304 header sets *)
 Theorem C04_revalidated_response_filter : forall old fresh e,
   In e (resp_filter false (hdr_update old fresh)) ->
   is_hopbyhop (hdr_id e) = false /\
@@ -46,10 +47,11 @@ Theorem C04_revalidated_response_filter : forall old fresh e,
 Proof. exact reval_filter_sound. Qed.
 Print Assumptions C04_revalidated_response_filter.
 
-Theorem C04_connection_field_of_304_is_merged : forall old fresh c,
-  In c fresh -> (hdr_id c =? ID_CONNECTION) = true -> In c (hdr_update old fresh).
-Proof. exact reval_connection_of_304_is_honoured. Qed.
-Print Assumptions C04_connection_field_of_304_is_merged.
+(* the stored Connection entries survive the update, so they keep nominating the stored hop-by-hop fields *)
+Theorem C04_stored_connection_field_survives_304 : forall old fresh c,
+  In c old -> hdr_id c = ID_CONNECTION -> In c (hdr_update old fresh).
+Proof. exact reval_stored_connection_survives. Qed.
+Print Assumptions C04_stored_connection_field_survives_304.
 
 (* the index-tracking merge used by the end-to-end correspondence is that update *)
 Theorem C04_merge_model_is_update : forall old fresh, map snd (merged_tagged old fresh) = hdr_update old fresh.
@@ -94,11 +96,16 @@ Example C04_member_example :
             (map N.of_nat [88;45;102;111;111]%nat) = true.
 Proof. vm_compute. reflexivity. Qed.
 
-(* the property is REFUTED on the revalidation path (known finding C04-reval-stored-hop-fields): a field of the
-   stored response that its own Connection field nominated is relayed after a 304 with a different Connection
-   field has been merged; the witness is replayed against the running proxy by the check *)
-Theorem C04_revalidated_stored_field_refuted :
-  exists old fresh e, In e old /\ is_member (conn_value old) (h_name e) = true /\
-                      In e (resp_filter false (hdr_update old fresh)).
-Proof. exact reval_stored_field_refuted. Qed.
-Print Assumptions C04_revalidated_stored_field_refuted.
+(* the property HOLDS on the revalidation path of the repaired code (former finding C04-reval-stored-hop-fields, fixed
+   by /repo 5d5369d): a field of the stored response that its own Connection field nominates is never relayed after
+   a 304 has been merged, whatever the 304 carries; no extra hypothesis *)
+Theorem C04_revalidated_stored_field_not_relayed : forall old fresh e,
+  In e old -> is_member (conn_value old) (h_name e) = true ->
+  ~ In e (resp_filter false (hdr_update old fresh)).
+Proof. exact reval_stored_field_dropped. Qed.
+Print Assumptions C04_revalidated_stored_field_not_relayed.
+(* the scenario of the former finding (stored `Connection: X-Foo`, `X-Foo: v`; 304 with `Connection: x-other`) *)
+Example C04_revalidated_witness_now_filtered :
+  is_member (conn_value wit_old) (h_name (nth 1 wit_old {| h_name := []; h_value := [] |})) = true /\
+  resp_filter false (hdr_update wit_old wit_fresh) = [].
+Proof. exact reval_witness_now_filtered. Qed.
